@@ -3,7 +3,7 @@ from collections import deque
 
 import numpy as np
 
-RULE = ("K: binary designs on a fixed list of shapes (every axis 3..8 quick / 3..12 thorough, plus z=1 and the shapes on "
+RULE = ("K: binary designs on a fixed list of shapes (every axis 3..7 quick / 3..12 thorough, plus z=1, degenerate shapes with every axis <= 3, and the shapes on "
         "which convolve2d raises), per shape random designs of density 0.15..0.95 and adversarial ones (serpentines in the "
         "xz / yz plane and lying in a z-layer, square spirals, combs, nested boxes, closed cavities, floating blocks, "
         "diagonal-only contacts, full, empty). Observed: compute_polymer_connection, compute_air_connection (private anchors), "
